@@ -405,11 +405,18 @@ func (in *Interp) callBuiltin(fr *frame, b *ssa.Builtin, args []Value, c *ssa.Ca
 			return st.Const(uint64(at.Len()), 64)
 		}
 	case "append":
+		if in.race != nil {
+			in.raceAppend(fr, args[0].(SliceV), args[1], c.Args[0].Type())
+		}
 		return in.appendOp(args[0].(SliceV), args[1], c.Args[0].Type(), c.Args[1].Type())
 	case "copy":
+		if in.race != nil {
+			in.raceCopy(fr, args[0].(SliceV), args[1], c.Args[0].Type())
+		}
 		return st.Const(uint64(in.copyOp(args[0].(SliceV), args[1], c.Args[0].Type())), 64)
 	case "delete":
 		if m := args[0].(*MapV); m != nil {
+			in.raceMap(fr, m, true)
 			in.mapDelete(m, args[1])
 		}
 		return nil
@@ -422,6 +429,9 @@ func (in *Interp) callBuiltin(fr *frame, b *ssa.Builtin, args []Value, c *ssa.Ca
 			panic(goPanic{msg: "close of closed channel", site: in.site()})
 		}
 		ch.closed = true
+		if in.race != nil {
+			ch.closeVC = vcJoin(vcCopy(ch.closeVC), in.raceSnapshot())
+		}
 		// closing a channel wakes its waiters, which may run at once on another processor:
 		// a scheduling point
 		in.Yield()
@@ -715,6 +725,7 @@ func (in *Interp) lookup(fr *frame, ins *ssa.Lookup) Value {
 	case StrV:
 		return in.strIndex(v, in.idx64(fr.get(ins.Index), ins.Index.Type()))
 	case *MapV:
+		in.raceMap(fr, v, false)
 		k := fr.get(ins.Index)
 		e := in.mapFind(v, k)
 		var val Value
